@@ -167,6 +167,69 @@ fn keys_family(rep: &mut Report, tier: Tier, mode: &str) {
     rep.bounds["keys"] = json!({"key_set": KEYS.iter().map(|k| RV::Str(k.to_string()).show()).collect::<Vec<_>>(), "max_members": maxk, "orders": "every ordered selection (all subsets in every permutation)", "shapes": ["flat", "object in object", "object in array"]});
 }
 
+/// Keys that share a long common prefix and differ late (C09, C10): every ordered pair of the
+/// deciding tails below, behind a common prefix of every length 0..=17 and around 24, 32, 64 (in
+/// bytes *and*, with a two-byte-per-unit prefix, in UTF-16 units: every residue modulo 8 and 16
+/// occurs), bare and followed by a common or a differing suffix. The tails contain the
+/// U+E000..U+FFFF / supplementary-plane pairs on which UTF-16 order and code-point order differ,
+/// and pairs that share their UTF-8 lead byte (two-, three- and four-byte forms).
+fn prefixed_keys_family(rep: &mut Report, tier: Tier, mode: &str) {
+    let tails = ["a", "b", "\u{e8}", "\u{e9}", "\u{20ac}", "\u{20ad}", "\u{d7ff}", "\u{e000}", "\u{ffff}", "\u{10000}", "\u{10001}", "\u{1d11e}", "\u{10ffff}", ""];
+    let mut lens: Vec<usize> = (0..=17).collect();
+    lens.extend([23, 24, 25, 31, 32, 33, 63, 64, 65]);
+    if tier == Tier::Thorough {
+        lens.extend([127, 128, 129, 255, 256, 257, 1023, 1024, 1025]);
+    }
+    let units = ["p", "\u{e9}", "\u{20ac}", "\u{10400}"];
+    let mut items = Vec::new();
+    for (ui, _) in units.iter().enumerate() {
+        for &l in &lens {
+            items.push((ui, l));
+        }
+    }
+    let count = items.len();
+    let t = explore::par_tally(items, |(ui, l), t| {
+        let prefix = units[ui].repeat(l);
+        for (i, a) in tails.iter().enumerate() {
+            for (j, b) in tails.iter().enumerate() {
+                if i == j {
+                    continue;
+                }
+                for (sa, sb) in [("", ""), ("z", "z"), ("zy", "a")] {
+                    let ka = format!("{prefix}{a}{sa}");
+                    let kb = format!("{prefix}{b}{sb}");
+                    if ka == kb {
+                        continue;
+                    }
+                    let v = RV::Obj(vec![(ka.clone(), RV::Num("1".into())), (kb.clone(), RV::Num("2".into()))]);
+                    if mode == "C09" {
+                        c09_value(&v, t);
+                        c09_value(&RV::Arr(vec![RV::Null, v.clone()]), t);
+                    } else {
+                        c10_value(&v, t);
+                        // both member orders, with different and with equal values (a comparator
+                        // that wrongly reports a tie falls back on the values or the input order)
+                        for (va, vb) in [("1", "2"), ("1", "1")] {
+                            let v = RV::Obj(vec![(ka.clone(), RV::Num(va.into())), (kb.clone(), RV::Num(vb.into()))]);
+                            let w = RV::Obj(vec![(kb.clone(), RV::Num(vb.into())), (ka.clone(), RV::Num(va.into()))]);
+                            let x = canon_print(&v).map(|x| x.0);
+                            let y = canon_print(&w).map(|x| x.0);
+                            t.evals += 1;
+                            if x != y {
+                                t.violation("", format!("member order changes the canonical output: {x:?} vs {y:?}"), case_value(&v));
+                            }
+                        }
+                    }
+                }
+            }
+        }
+        t.nontrivial(&(ui, l));
+        t.outcome("keys:long common prefix");
+    });
+    rep.bounds["prefixed_keys"] = json!({"prefix_units": units.iter().map(|u| RV::Str(u.to_string()).show()).collect::<Vec<_>>(), "prefix_lengths": lens, "deciding_tails": tails.len(), "suffix_patterns": 3, "prefix_cases": count});
+    rep.absorb(t);
+}
+
 /// Every JSON number spelling of length <= max over the alphabet (walk of the number DFA).
 fn spellings(alphabet: &str, max: usize) -> Vec<String> {
     let mut out = Vec::new();
@@ -276,7 +339,7 @@ fn pumped(rep: &mut Report, tier: Tier, mode: &str) {
     use refmodel::pump::Family;
     let all: Vec<_> = refmodel::pump::all(tier == Tier::Thorough)
         .into_iter()
-        .filter(|(f, n, _)| !matches!(f, Family::DuplicateKey | Family::InterleavedDuplicates) && *n <= tier.pick(1025, 4097))
+        .filter(|(f, n, _)| !matches!(f, Family::DuplicateKey | Family::InterleavedDuplicates | Family::KeyGridDup) && *n <= tier.pick(1025, 4097))
         .collect();
     let count = all.len();
     let t = explore::par_tally(all, |(fam, n, v), t| {
@@ -735,6 +798,7 @@ fn main() {
         "C09" => {
             let mut rep = Report::new(&args, "exploration", "E-ENUM: key sets in every permutation + three exhaustive number families against R-canon");
             keys_family(&mut rep, args.tier, "C09");
+            prefixed_keys_family(&mut rep, args.tier, "C09");
             numbers_family(&mut rep, args.tier);
             pumped(&mut rep, args.tier, "C09");
             rep.tally.sample(json!({"value": "{\"\\ud800\\udc00\":1,\"\\ue000\":2}", "canonical": canon::canonical(&RV::Obj(vec![("\u{10000}".into(), RV::num("1")), ("\u{e000}".into(), RV::num("2"))]))}));
@@ -746,6 +810,7 @@ fn main() {
         "C10" => {
             let mut rep = Report::new(&args, "exploration", "E-ENUM: equivalence classes of documents (member order, number spelling, escapes, whitespace)");
             keys_family(&mut rep, args.tier, "C10");
+            prefixed_keys_family(&mut rep, args.tier, "C10");
             c10_documents(&mut rep, args.tier);
             pumped(&mut rep, args.tier, "C10");
             rep.tally.sample(json!({"number": "1.5e2", "respellings_all_canonicalising_to": canon::canonical_number("1.5e2"), "respellings": respellings("1.5e2")}));
